@@ -341,6 +341,12 @@ func ClosedValue(p *core.Program, name string) (Val, error) {
 // closed — `table[i].field`, `table[i].list[j]` — with constant or variable indices;
 // returns every value the read can yield (all rows for a variable index).
 func ColumnValues(p *core.Program, v ssa.Value) ([]Val, bool) {
+	if root, path, ok := ssax.TableRead(v); ok {
+		if al, isAl := root.(*ssa.Alloc); isAl {
+			vals, _, ok := localColumnVals(al, path)
+			return vals, ok
+		}
+	}
 	type step struct {
 		kind  byte // 'i' index, 'f' field
 		idx   int
@@ -453,6 +459,12 @@ func ssaConstInt(v ssa.Value) (int64, bool) {
 // of the row (`row := table[i]; row.field`).  Returns the index value and the value
 // of that place for every row, in row order.
 func RowColumn(p *core.Program, v ssa.Value) (ssa.Value, []Val, bool) {
+	if root, path, ok := ssax.TableRead(v); ok {
+		if al, isAl := root.(*ssa.Alloc); isAl {
+			vals, rowVar, ok := localColumnVals(al, path)
+			return rowVar, vals, ok && rowVar != nil
+		}
+	}
 	type step struct {
 		kind  byte
 		idx   int
@@ -567,4 +579,47 @@ func RowColumn(p *core.Program, v ssa.Value) (ssa.Value, []Val, bool) {
 		cursors = next
 	}
 	return rowIdx, cursors, fanned
+}
+
+// localColumnVals: the constant values of a place of a local table literal (per row).
+func localColumnVals(al *ssa.Alloc, path []ssax.PathElem) ([]Val, ssa.Value, bool) {
+	svals, rowVar, ok := ssax.LocalColumn(al, path)
+	if !ok {
+		return nil, nil, false
+	}
+	var out []Val
+	for _, sv := range svals {
+		if ct, isCT := sv.(*ssa.ChangeType); isCT {
+			sv = ct.X
+		}
+		switch x := sv.(type) {
+		case *ssa.Const:
+			if x.Value == nil {
+				out = append(out, nil)
+				continue
+			}
+			switch x.Value.Kind() {
+			case constant.Int:
+				k, _ := constant.Int64Val(constant.ToInt(x.Value))
+				out = append(out, k)
+			case constant.String:
+				out = append(out, constant.StringVal(x.Value))
+			case constant.Bool:
+				out = append(out, constant.BoolVal(x.Value))
+			default:
+				return nil, nil, false
+			}
+		case *ssa.Function:
+			out = append(out, ssax.Unwrap(x))
+		case *ssa.MakeClosure:
+			f, isF := x.Fn.(*ssa.Function)
+			if !isF {
+				return nil, nil, false
+			}
+			out = append(out, ssax.Unwrap(f))
+		default:
+			return nil, nil, false
+		}
+	}
+	return out, rowVar, true
 }
